@@ -37,6 +37,12 @@ class Register:
 
     def __init__(self, name, size=None, alias_from=None, alias_slice=None):
         self._name = name
+        if size is not None and not isinstance(size, AnnotatedValue):
+            # A literal size (or the value substituted for a let constant)
+            if isinstance(size, float) and size == int(size):
+                size = int(size)
+            if not isinstance(size, int) or size < 1:
+                raise JaqalError(f"Invalid size {size} for register {name}.")
         self._size = size
         if (alias_from is None) and not (alias_slice is None and size is not None):
             raise JaqalError(f"Invalid register declaration: {name}.")
